@@ -81,6 +81,11 @@ class Gen:
         self.p = Program()
         self.p.profile = profile
         self.p.memsize = memsize
+        # ssabr1 = ssabr with exactly ONE branch in the whole program (nothing nested, nothing after it)
+        self.single = profile == 'ssabr1'
+        self.single_done = False
+        if self.single:
+            profile = 'ssabr'
         self.profile = profile
         self.max_len = max_len
         self.pool = list(POOL)
@@ -91,8 +96,9 @@ class Gen:
         self.stored = set()      # bytes already stored (profile disj)
         self.lines = []          # bases of the touched lines (profile touched)
         self.fresh = [x for x in range(5, 32) if x not in ADDR + CNT] if profile == 'ssa' else [x for x in range(5, 32)]   # ssa profiles: unused registers
-        if profile in ('ssa', 'ssamem', 'ssald'):
+        if profile in ('ssa', 'ssamem', 'ssald', 'ssabr'):
             rng.shuffle(self.fresh)
+        self.slow_reg = None
 
     def n(self):
         return len(self.p.instrs())
@@ -102,7 +108,7 @@ class Gen:
 
     def src(self):
         r = self.rng
-        if self.profile in ('ssa', 'ssamem', 'ssald'):
+        if self.profile in ('ssa', 'ssamem', 'ssald', 'ssabr'):
             # reading a register makes it unavailable as a later destination (no WAR)
             c = r.random()
             if c < 0.1:
@@ -119,7 +125,7 @@ class Gen:
         return r.choice(self.pool)
 
     def dst(self):
-        if self.profile in ('ssa', 'ssamem', 'ssald'):
+        if self.profile in ('ssa', 'ssamem', 'ssald', 'ssabr'):
             if not self.fresh:
                 return 0
             return self.fresh.pop()
@@ -147,7 +153,7 @@ class Gen:
             # division by a register made non-zero
             d = self.dst()
             if d == 0:
-                if self.profile in ('ssa', 'ssald', 'ssamem'):
+                if self.profile in ('ssa', 'ssald', 'ssamem', 'ssabr'):
                     self.p.ins('addi', 0, self.src(), imm=1)
                     return
                 d = self.pool[0]
@@ -277,10 +283,17 @@ class Gen:
         """conditional forward branch over a shadow block"""
         r = self.rng
         l = self.p.new_label()
-        if slow_cond:
+        if slow_cond and self.profile == 'ssabr':
+            c = self.slow_reg if self.slow_reg is not None else 0
+            self.p.tags.add('slow-branch')
+            if r.random() < 0.5:
+                self.p.ins(r.choice(BR1), rs1=c, label=l)
+            else:
+                self.p.ins(r.choice(BR2), rs1=c, rs2=r.choice([0, c, self.src()]), label=l)
+        elif slow_cond:
             # the condition depends on a load: the shadow progresses while it resolves
             a = self.set_addr()
-            c = self.dst() or (0 if self.profile in ('ssa', 'ssald', 'ssamem') else self.pool[0])
+            c = self.dst() or (0 if self.profile in ('ssa', 'ssald', 'ssamem', 'ssabr') else self.pool[0])
             self.p.ins('lw', c, a, imm=self.mem_off(a, 4))
             self.p.tags.add('slow-branch')
             if r.random() < 0.5:
@@ -307,6 +320,18 @@ class Gen:
             self.p.tags.add('shadow-store')
         elif self.profile in ('shadow', 'mem', 'stld', 'mixed', 'ldonly', 'ldslow', 'disj', 'touched') and c < 0.35:
             self.load()
+        elif self.profile == 'ssabr' and c < 0.12:
+            self.p.ins('ret')
+            self.p.tags.add('shadow-ret')
+        elif self.profile == 'ssabr' and c < 0.25 and self.fresh:
+            l = self.p.new_label()
+            self.p.ins('jal', self.dst(), label=l)
+            self.alu()
+            self.p.label(l)
+            self.p.tags.add('shadow-jal')
+        elif self.profile == 'ssabr' and c < 0.4 and self.room(6) and not self.single:
+            self.branch_fwd(body_len=r.randint(1, 2), slow_cond=r.random() < 0.5)
+            self.p.tags.add('nested-branch')
         elif self.profile == 'shadow' and c < 0.42:
             l = self.p.new_label()
             self.p.ins('jal', self.dst(), label=l)
@@ -486,7 +511,7 @@ class Gen:
             elif c < 0.7:
                 self.store()
             else:
-                d = self.dst() or (0 if self.profile in ('ssa', 'ssald', 'ssamem') else self.pool[0])
+                d = self.dst() or (0 if self.profile in ('ssa', 'ssald', 'ssamem', 'ssabr') else self.pool[0])
                 self.p.ins('addi', d, self.src(), imm=r.randint(-5, 5))
                 self.p.ins('add', self.dst(), d, d)
         self.p.tags.add('tail')
@@ -504,7 +529,7 @@ class Gen:
         nmem = r.randint(0, min(64, p.memsize))
         for _ in range(nmem):
             p.mem[r.randrange(p.memsize)] = r.randint(-128, 127)
-        if prof in ('mem', 'stld', 'tail', 'mixed', 'ldonly', 'ldslow', 'disj', 'touched', 'evict', 'evictlf', 'ssamem', 'ssald') and r.random() < 0.7:
+        if prof in ('mem', 'stld', 'tail', 'mixed', 'ldonly', 'ldslow', 'disj', 'touched', 'evict', 'evictlf', 'ssamem', 'ssald', 'ssabr') and r.random() < 0.7:
             # dense image
             for a in range(0, p.memsize, r.choice([1, 3, 4])):
                 p.mem[a] = r.randint(-128, 127)
@@ -514,6 +539,7 @@ class Gen:
             'ssa': dict(alu=8, branch=2, jump=1),
             'ssamem': dict(alu=4, load=3, store=3, branch=1),
             'ssald': dict(alu=4, load=5, branch=1),
+            'ssabr': dict(alu=4, slowbranch=4, branch=1),
             'ldonly': dict(alu=3, load=5, branch=1, loop=1, setaddr=1),
             'ldslow': dict(alu=3, load=2, slowbranch=3, branch=1),
             'disj': dict(alu=3, load=3, store=3, branch=1),
@@ -542,10 +568,26 @@ class Gen:
                 self.addr_val[reg] = b
                 self.p.ins('lw', self.dst(), reg, imm=0)
             p.tags.add('touched-lines-%d' % nl)
+        if prof == 'ssabr':
+            # exactly one load, at a random (even or odd) instruction index, feeds the branch conditions
+            for _ in range(r.randint(0, 3)):
+                self.alu()
+            areg = self.fresh.pop()
+            a = r.randrange(0, p.memsize - 4, 4)
+            self.p.ins('li', areg, imm=a)
+            self.slow_reg = self.fresh.pop()
+            self.p.ins(r.choice(['lw', 'lw', 'lb']), self.slow_reg, areg, imm=0)
+            p.tags.add('load')
         if prof in ('mem', 'stld', 'mixed', 'tail', 'ldonly', 'ldslow', 'evict'):
             self.set_addr()
         while self.n() < target and self.room(6):
             k = r.choices(kinds, wts)[0]
+            if self.single and k in ('branch', 'slowbranch'):
+                if self.single_done:
+                    k = 'alu'
+                else:
+                    k = 'slowbranch'
+                    self.single_done = True
             if k == 'alu':
                 self.alu()
             elif k == 'load':
@@ -597,7 +639,7 @@ def gen_program(rng, profile, memsize=None, max_len=None):
             memsize = rng.choice([512, 1024, 2048])
         if profile == 'touched':
             memsize = rng.choice([128, 256, 512, 1024])
-        if profile in ('ssamem', 'ssald'):
+        if profile in ('ssamem', 'ssald', 'ssabr', 'ssabr1'):
             memsize = rng.choice([64, 128, 256, 2048])
         if profile in ('evict', 'evictlf'):
             memsize = rng.choice([2048, 4096, 8192])
